@@ -27,7 +27,7 @@ import time as _time_mod
 from typing import Any, Optional
 
 from .kernel import make_classes, ThreadingFacade, TimeFacade
-from .patching import Patches, patch_core, RandomFacade
+from .patching import patch_core, RandomFacade
 from .netsim import NetSim, keyed_unit, iso_time
 
 ITS_EPOCH_MS = 1_072_915_200_000      # 2004-01-01T00:00:00Z in Unix ms
@@ -132,6 +132,7 @@ class StubBTP:
         self.who = who
         self.callbacks: dict[int, Any] = {}
         self.fail_next = 0
+        self.forward = None           # real btp.Router below (config stack == "real")
 
     def register_indication_callback_btp(self, port, callback):
         self.callbacks[port] = callback
@@ -146,6 +147,11 @@ class StubBTP:
             self.sim.log.append({"k": "fault", "t": self.sim.kernel.now_us, "kind": "send_error"})
             raise _Injected("injected send error")
         self.sim.on_btp(self.who, request)
+        if self.forward is not None:
+            try:
+                self.forward.btp_data_request(request)
+            except Exception as e:  # noqa: BLE001 - the layers below are judged by C01/C02, not here
+                self.sim.probe("real-stack-request-raised:" + type(e).__name__)
 
 
 class _LogCatcher(logging.Handler):
@@ -174,9 +180,9 @@ class _RecLdm:
 _LOGGERS = ("ca_basic_service", "vru_basic_service", "denm_service", "vru_clustering",
             "flexstack.facilities.vru_awareness_service.vru_clustering")
 
+# TS 102 894-2 V2.1.1 VehicleRole names (oracle side; the value space is 0..15)
 VEHICLE_ROLES = ["default", "publicTransport", "specialTransport", "dangerousGoods", "roadWork", "rescue", "emergency",
-                 "safetyCar", "agricultural", "commercial", "military", "roadOperator", "taxi", "reserved1", "reserved2",
-                 "reserved3"]
+                 "safetyCar", "agriculture", "commercial", "military", "roadOperator", "taxi", "uvar", "rfu1", "rfu2"]
 
 
 def exc_key(e: BaseException) -> str:
@@ -190,6 +196,49 @@ def exc_key(e: BaseException) -> str:
     if "." in head and " " not in head:
         return f"{name}:{'.'.join(head.split('.')[-2:])}"
     return name
+
+
+def culprit(tpv: dict) -> str:
+    """Which report property makes the naive scaling leave the element's range (coarse, for keys)."""
+    if "epd" in tpv and tpv["epd"] < 0.1:
+        return "epd<0.1"                  # int(epd*10) = 0 lies below HeadingConfidence / Wgs84AngleConfidence (1..127)
+    if max(tpv.get("epx", 0), tpv.get("epy", 0)) * 100 >= 4096 and "epx" in tpv and "epy" in tpv:
+        return "epx/epy>40.95"
+    return "?"
+
+
+ROLE_NAMES = set(VEHICLE_ROLES) | {"agricultural", "reserved1", "reserved2", "reserved3"}
+
+
+def exc_label(sim, e, typ) -> str:
+    """Finding-key part for an exception of the code under test: type (+ ASN.1 path / missing key) + root-cause class."""
+    ex = e["exc"]
+    if isinstance(ex, KeyError) and ex.args and ex.args[0] in ROLE_NAMES:
+        return "KeyError:vehicleRole-name"
+    label = exc_key(ex)
+    if label in ("KeyError:lat", "KeyError:lon"):
+        label = "KeyError:lat/lon"
+    cul = culprit_of_entry(sim, e)
+    if label == "Error" and cul != "?" and typ in ("CAM", "VAM"):
+        label += "/" + cul              # asn1tools' bare Error('Odd-length string') = a value below its element's lower bound
+    return label
+
+
+def culprit_of_entry(sim, e) -> str:
+    cl = e.get("cluster")
+    if cl and not isinstance(e["exc"], KeyError):
+        op = cl.get("op") or {}
+        if op.get("clusterJoinInfo", {}).get("joinTime", 1) < 1:
+            return "clusterJoinInfo.joinTime=0"
+        if op.get("clusterBreakupInfo", {}).get("breakupTime", 1) < 1:
+            return "clusterBreakupInfo.breakupTime=0"
+        if cl.get("info"):
+            return "vruClusterInformationContainer"
+    for back in reversed(sim.log[:e.get("pos", len(sim.log))]):
+        if back["k"] == "tpv":
+            return culprit(back["tpv"])
+    return "?"
+
 
 
 # ------------------------------------------------------------------------------------------ the simulation
@@ -226,7 +275,7 @@ class FacSim(NetSim):
         self.log.append({"k": "btp", "t": k.now_us, "n": n, "port": port, "data": data, "req": request})
         k.record("btp", port, data)
         rx = self.cfg.get("rx")
-        if rx and port in (2001, 2018):
+        if rx and port in (2001, 2018) and self.cfg.get("stack") != "real":
             u = keyed_unit(self.net_seed, "rxd", n)
             lo, hi = rx["delay_us"]
             if u < rx.get("p_far", 0.0):
@@ -235,7 +284,7 @@ class FacSim(NetSim):
                 d = int(lo + keyed_unit(self.net_seed, "rxn", n) * (hi - lo))
             k.call_later(d, self._rx_deliver, n, port, data, station=self.RX, kind="rx", cause=("rx", n))
 
-    def _rx_deliver(self, n: int, port: int, data: bytes) -> None:
+    def _rx_deliver(self, n: int, port: int, data: bytes, ind=None) -> None:
         from flexstack.btp.service_access_point import BTPDataIndication
         k = self.kernel
         cb = self.rx_btp.callbacks.get(port)
@@ -245,7 +294,7 @@ class FacSim(NetSim):
         self._rx_ldm.last = None
         clock_ms = k.station_now_us(self.RX) // 1000
         try:
-            cb(BTPDataIndication(destination_port=port, length=len(data), data=data))
+            cb(ind if ind is not None else BTPDataIndication(destination_port=port, length=len(data), data=data))
         except Exception as e:  # noqa: BLE001 - judged by the oracle
             self.log.append({"k": "exc", "t": k.now_us, "where": f"rx:{port}", "exc": e, "n": n})
             k.record("exc", "rx", port, type(e).__name__)
@@ -311,13 +360,33 @@ class FacSim(NetSim):
         self.eva = EmergencyVehicleApproachingService(self.den, duration=h.get("duration_ms", 3000))
         self.eva_created_ms = self.kernel.station_now_us(self.TX) // 1000
 
-    def _build_rx(self):
+    def _build_rx(self, btp=None):
         from flexstack.facilities.ca_basic_service.cam_reception_management import CAMReceptionManagement
         from flexstack.facilities.vru_awareness_service.vam_reception_management import VAMReceptionManagement
-        self._rx_cam = CAMReceptionManagement(cam_coder=coder("cam"), btp_router=self.rx_btp, ca_basic_service_ldm=None)
+        btp = btp if btp is not None else self.rx_btp
+        self._rx_cam = CAMReceptionManagement(cam_coder=coder("cam"), btp_router=btp, ca_basic_service_ldm=None)
         self._rx_cam.add_application_callback(self._rx_cam_cb)
-        self._rx_vam = VAMReceptionManagement(vam_coder=coder("vam"), btp_router=self.rx_btp,
+        self._rx_vam = VAMReceptionManagement(vam_coder=coder("vam"), btp_router=btp,
                                               vru_basic_service_ldm=self._rx_ldm, clustering_manager=None)
+        if btp is not self.rx_btp:
+            # real BTP router of the receiving station: keep the real callbacks, observe around them
+            for port in (2001, 2018):
+                orig = btp.pre_indication_callbacks[port]
+                self.rx_btp.callbacks[port] = orig
+                btp.pre_indication_callbacks[port] = (lambda ind, port=port: self._rx_real(port, ind))
+
+    def _rx_real(self, port: int, ind) -> None:
+        data = bytes(ind.data)
+        n = next((e["n"] for e in reversed(self.log) if e["k"] == "btp" and e["port"] == port and e["data"] == data), None)
+        if n is None:
+            self.probe("rx-unknown-payload")
+            return
+        self.probe("rx-through-real-stack")
+        self._rx_deliver(n, port, data, ind)
+
+    def wire_facilities(self, station) -> None:
+        if station.idx == self.RX and self.cfg.get("rx"):
+            self._build_rx(station.btp)
 
     def _rx_cam_cb(self, cam):
         self.rx_last = cam
@@ -336,6 +405,11 @@ class FacSim(NetSim):
             ent = {"k": "tpv", "t": k.now_us, "i": idx, "tpv": tpv, "to": to}
             self.log.append(ent)
             k.record("tpv", idx)
+            if self.stations:
+                try:
+                    self.stations[self.TX].gn.refresh_ego_position_vector(dict(tpv))
+                except Exception as e:  # noqa: BLE001 - GN position handling is C01/C02/C08's subject
+                    self.probe("real-stack-position-raised:" + type(e).__name__)
             if self.ca is not None:
                 to.append("ca")
                 self._guard("ca.location", self.ca.cam_transmission_management.location_service_callback, dict(tpv))
@@ -483,12 +557,19 @@ class FacSim(NetSim):
                 if off.get("rx"):
                     k.offsets_us[self.RX] = off["rx"] * 1000
                     self.fault("clock_skew")
+                if cfg.get("stack") == "real":
+                    from .netsim import Station
+                    for i, spec in enumerate(self.plan["stations"][:2]):
+                        self.stations.append(Station(self, i, spec))
+                    if len(self.stations) == 2:
+                        self.set_link(0, 1, True)
+                        self.btp.forward = self.stations[self.TX].btp
                 k.current_station = self.TX
                 if "ca" in self.host:
                     self._build_ca()
                 if "den" in self.host:
                     self._build_den()
-                if cfg.get("rx"):
+                if cfg.get("rx") and self._rx_cam is None:
                     k.current_station = self.RX
                     self._build_rx()
                 k.current_station = None
@@ -1153,7 +1234,15 @@ def gen_fac_plan(run_seed: int, tier: str, prop: str) -> dict:
         if cfg["rx"]["p_far"] > 0 and not long_run:
             cfg["run_limit_us"] = end_us + r.choice([tail_us, 20_000_000, 66_000_000])
             cfg["max_events"] += 3000
-    return {"engine": "fac", "property": prop, "config": cfg, "stations": [], "host": host, "ops": ops}
+    stations = []
+    if c11 and not long_run and r.random() < 0.1:
+        # a real GN + BTP stack below the services and a second real station as receiver (C11 receiver-side clause end to end)
+        cfg["stack"] = "real"
+        cfg["latency_us"] = [100, r.choice([2000, 20000])]
+        first = next((o["tpv"] for o in ops if o["op"] == "tpv" and "lat" in o["tpv"] and "lon" in o["tpv"]), {"lat": 41.0, "lon": 2.0})
+        pos = [int(round(first["lat"] * 1e7)), int(round(first["lon"] * 1e7))]
+        stations = [{"mac": "02aabbccdd01", "st": 5, "pos": pos}, {"mac": "02aabbccdd02", "st": 5, "pos": pos}]
+    return {"engine": "fac", "property": prop, "config": cfg, "stations": stations, "host": host, "ops": ops}
 
 
 # ------------------------------------------------------------------------------------------ shrinkers
